@@ -613,3 +613,60 @@ Lemma one_section_cleanup_same_schedule :
   map snd (sh_log (fst (run shared local (tstep DAY repaired) (init 1000 sweep_progs) sweep_sched)))
   = [OOk; OOk; OOk; OOk; OVal (VS sb)].
 Proof. vm_compute. reflexivity. Qed.
+
+(* ------------------------------------------------------------------------------------------ *)
+(* an expired-entry reader (two sections) racing one writer                                    *)
+(* ------------------------------------------------------------------------------------------ *)
+
+(* GetHash / GetAllHash / GetExpiration r with ANY single-section call w landing between r's two sections
+   (r1 ; w ; r2), from any related pair of states: the answers of both calls and the resulting store are those of
+   the sequential order  r ; w  of the Spec.  (The other two interleavings ARE sequential orders: r1 ; r2 ; w = r ; w
+   and w ; r1 ; r2 = w ; r by [step_refines].)  This is where the expiry re-test of the second section is used:
+   [gc_key] deletes only what is expired NOW, which the abstraction does not see. *)
+Theorem reader_upgrade_vs_writer D (HD : 0 < D) m s now r k w :
+  refines m s now -> two_phase r = Some k -> two_phase w = None ->
+  let '(out_r, gc) := read_phase repaired m now r in
+  let '(out_w, m1, now1) := mem_step D repaired m now w in
+  let m2 := if gc then gc_key m1 now1 k else m1 in
+  let '(sr, s1, nowr) := spec_step D s now r in
+  let '(sw, s2, noww) := spec_step D s1 nowr w in
+  out_r = sr /\ out_w = sw /\ now1 = noww /\ refines m2 s2 now1.
+Proof.
+  intros R Hr Hw.
+  destruct (read_phase_spec D m s now r k R Hr) as (Ho & Hs & Hn).
+  destruct (read_phase repaired m now r) as [out_r gc]. cbn [fst] in Ho.
+  pose proof (step_refines D HD m s now w R) as Hst. unfold step_ok in Hst.
+  destruct (mem_step D repaired m now w) as [[out_w m1] now1]. cbn [fst snd] in Hst.
+  destruct (spec_step D s now r) as [[sr s1] nowr]. cbn [fst snd] in Ho, Hs, Hn. subst s1 nowr.
+  destruct (spec_step D s now w) as [[sw s2] noww]. cbn [fst snd] in Hst.
+  destruct Hst as (Hw1 & Hw2 & R2). subst.
+  repeat split; try reflexivity.
+  destruct gc; [apply gc_key_refines|]; exact R2.
+Qed.
+
+(* identity re-check instead of expiry re-check: caller 0 plants a hash, lets it expire, GetHash;  caller 1 SetHash, GetHash.
+   schedule 0 0 0 | 0 = GetHash section 1 (expired, remembers the item) | 1 = SetHash refreshes the SAME item in place
+   | 0 = GetHash section 2 deletes it | 1 = GetHash(k,f) -> not found although SetHash(k,f,b) returned nil *)
+Definition upgrade_progs : list (list op) :=
+  [[KSetHash kA [102] sa; KSetExpiration kA 50; KTick 100; KGetHash kA [102]]; [KSetHash kA [102] sb; KGetHash kA [102]]].
+Definition upgrade_sched : list nat := [0; 0; 0; 0; 1; 0; 1]%nat.
+
+Lemma pointer_recheck_refuted :
+  ~ legal DAY 1000
+      (sh_log (s3 (fst (run shared3 local3 (tstep_pointer_recheck DAY repaired) (init3 1000 upgrade_progs) upgrade_sched)))).
+Proof. unfold legal. vm_compute. intros H. discriminate H. Qed.
+
+(* with a writer that installs a new item (Set) the identity re-check happens to be harmless: it is the in-place
+   refreshers (SetHash, IncrBy) that break it *)
+Lemma pointer_recheck_harmless_for_set :
+  legal DAY 1000
+      (sh_log (s3 (fst (run shared3 local3 (tstep_pointer_recheck DAY repaired)
+                        (init3 1000 [[KSet kA (VS sa) 50; KTick 100; KGetExpiration kA]; [KSet kA (VS sb) 0; KGet kA]])
+                        [0; 0; 0; 1; 0; 1]%nat)))).
+Proof. unfold legal. vm_compute. reflexivity. Qed.
+
+(* the same programs and schedule on the real (expiry re-testing) second section: the SetHash survives *)
+Lemma expiry_recheck_same_schedule :
+  map snd (sh_log (fst (run shared local (tstep DAY repaired) (init 1000 upgrade_progs) upgrade_sched)))
+  = [OOk; OOk; OOk; ONotFound; OOk; OVal (VS sb)].
+Proof. vm_compute. reflexivity. Qed.
